@@ -8,6 +8,11 @@
 //!   wt.recv <bi|uni> S npre en early mode history    -> ok sess=.. <nostream | nowt | bi|uni sid=<n> data=<piece.piece..> end=<fin|reset:c|pending>> close=<code|-> stop=<code|->
 //!   wt.recv2 S en mode history                        -> ok sess=.. A <stream a> stop=.. B <stream b> stop=.. close=..   (two uni streams
 //!        6 and 10 open at once; history items a:c<hex> a:F a:R<c> b:... p; every surfaced stream is read concurrently)
+//!   wt.multi S en mode history                        -> ok sess=.. #<id> <stream> stop=.. ... close=..   (any number of peer uni / bidi
+//!        streams with arbitrary transport ids; items <id>:o (announce only) <id>:c<hex> <id>:F <id>:R<c> p g<n>)
+//!   wt.open2 S en wb credit ops                        -> ok sess=.. tx=<stream 1>,<stream 2>,..   ops = bi:<hex>|uni:<hex>,.. opened one after
+//!        the other on the same session; credit 1: no open credit beyond start-up, the peer grants one G1 / H1 at a time
+//! history item g<n>: from here on the transport hands every delivery to h3 as a non-contiguous Buf of n-byte segments (SimQuic SEG<n>).
 //! en: server built with enable_webtransport(en != 0).  wb: bytes the transport accepts per grant on the opened
 //! stream (0 = unlimited).  early: the peer's uni stream events are delivered before the CONNECT request.
 //! mode: d = quic::RecvStream::poll_data, r<k> = futures AsyncRead with a k-byte buffer, t<k> = tokio AsyncRead with a
@@ -30,6 +35,7 @@ struct Progress {
     pieces: Vec<Vec<u8>>,
     end: Option<String>,
     opened: bool,
+    opened_count: usize,
     fail: Option<String>,
     /// wt.recv2: per transport stream id -> (what was attached, pieces, ending)
     multi: std::collections::BTreeMap<u64, (String, Vec<Vec<u8>>, Option<String>)>,
@@ -59,6 +65,10 @@ enum Op {
     Recv { bidi: bool, mode: Mode, split: bool },
     /// accept every uni stream that is surfaced and read all of them concurrently
     Recv2 { mode: Mode },
+    /// the same for uni AND bidi streams (a pool of accept_bi calls runs beside accept_uni)
+    Multi { mode: Mode },
+    /// open several streams one after the other on the same session: (bidi, payload)
+    OpenMany { ops: Vec<(bool, Vec<u8>)> },
 }
 
 #[derive(Clone, Copy)]
@@ -284,6 +294,107 @@ async fn app(world: Shared, en: bool, npre: usize, op: Op, prog: Prog) -> String
                 }
             }
         }
+        Op::Multi { mode } => {
+            use std::future::Future;
+            type BiFut<'a> = Pin<Box<dyn Future<Output = Result<Option<AcceptedBi<SimConn, Bytes>>, h3::error::StreamError>> + 'a>>;
+            let mut readers: Vec<Pin<Box<dyn Future<Output = ()> + '_>>> = Vec::new();
+            let prog2 = prog.clone();
+            let mut acc = Box::pin(session.accept_uni());
+            let mut bis: Vec<BiFut<'_>> = (0..3).map(|_| Box::pin(session.accept_bi()) as BiFut<'_>).collect();
+            poll_fn(|cx| {
+                loop {
+                    match acc.as_mut().poll(cx) {
+                        std::task::Poll::Ready(Ok(Some((sid, s)))) => {
+                            let id = quic::RecvStream::recv_id(&s).into_inner();
+                            prog2.lock().unwrap().multi.insert(
+                                id,
+                                (format!("uni sid={}", num_in_debug(&format!("{:?}", sid))), vec![], None),
+                            );
+                            let pr = prog2.clone();
+                            readers.push(Box::pin(async move { read_all(s, mode, &pr, Some(id)).await }));
+                            acc = Box::pin(session.accept_uni());
+                        }
+                        std::task::Poll::Ready(_) => {
+                            acc = Box::pin(session.accept_uni());
+                            break;
+                        }
+                        std::task::Poll::Pending => break,
+                    }
+                }
+                for k in 0..bis.len() {
+                    loop {
+                        match bis[k].as_mut().poll(cx) {
+                            std::task::Poll::Ready(Ok(Some(AcceptedBi::BidiStream(sid, s)))) => {
+                                let id = quic::RecvStream::recv_id(&s).into_inner();
+                                prog2.lock().unwrap().multi.insert(
+                                    id,
+                                    (format!("bi sid={}", num_in_debug(&format!("{:?}", sid))), vec![], None),
+                                );
+                                let pr = prog2.clone();
+                                readers.push(Box::pin(async move { read_all(s, mode, &pr, Some(id)).await }));
+                                bis[k] = Box::pin(session.accept_bi());
+                            }
+                            std::task::Poll::Ready(_) => {
+                                prog2.lock().unwrap().fail = Some("multi: accept_bi gave something else than a WebTransport stream".into());
+                                bis[k] = Box::pin(std::future::pending());
+                                break;
+                            }
+                            std::task::Poll::Pending => break,
+                        }
+                    }
+                }
+                for r in readers.iter_mut() {
+                    let _ = r.as_mut().poll(cx);
+                }
+                std::task::Poll::<()>::Pending
+            })
+            .await;
+        }
+        Op::OpenMany { ops } => {
+            let mut keep_bi = Vec::new();
+            let mut keep_uni = Vec::new();
+            for (bidi, payload) in ops {
+                let mut data = Bytes::from(payload);
+                if bidi {
+                    match session.open_bi(session.session_id()).await {
+                        Ok(mut s) => {
+                            while data.has_remaining() {
+                                if poll_fn(|cx| s.poll_send(cx, &mut data)).await.is_err() {
+                                    fail(&prog, "write-err".into());
+                                    break;
+                                }
+                            }
+                            let _ = poll_fn(|cx| s.poll_finish(cx)).await;
+                            keep_bi.push(s);
+                        }
+                        Err(e) => {
+                            fail(&prog, format!("open-err {}", stream_err(&e)));
+                            break;
+                        }
+                    }
+                } else {
+                    match session.open_uni(session.session_id()).await {
+                        Ok(mut s) => {
+                            while data.has_remaining() {
+                                if poll_fn(|cx| s.poll_send(cx, &mut data)).await.is_err() {
+                                    fail(&prog, "write-err".into());
+                                    break;
+                                }
+                            }
+                            let _ = poll_fn(|cx| s.poll_finish(cx)).await;
+                            keep_uni.push(s);
+                        }
+                        Err(e) => {
+                            fail(&prog, format!("open-err {}", stream_err(&e)));
+                            break;
+                        }
+                    }
+                }
+                prog.lock().unwrap().opened_count += 1;
+            }
+            prog.lock().unwrap().opened = true;
+            std::future::pending::<()>().await;
+        }
         Op::Recv2 { mode } => {
             use std::future::Future;
             let mut readers: Vec<Pin<Box<dyn Future<Output = ()> + '_>>> = Vec::new();
@@ -351,7 +462,12 @@ struct Setup {
 
 /// runs the connection up to the accepted session; `early` events are applied (with polls) before the CONNECT
 fn establish(s: u64, npre: usize, en: bool, op: Op, early: &[String], wb: u64) -> Result<Setup, String> {
-    let w = World::new(Side::Server, 100, 100, None);
+    establish_c(s, npre, en, op, early, wb, (100, 100))
+}
+
+/// `credits`: how many uni / bidi streams the endpoint may open before the peer grants more (`G<n>` / `H<n>`)
+fn establish_c(s: u64, npre: usize, en: bool, op: Op, early: &[String], wb: u64, credits: (u64, u64)) -> Result<Setup, String> {
+    let w = World::new(Side::Server, credits.0, credits.1, None);
     let mut ex = Exec::new();
     let prog: Prog = Arc::new(Mutex::new(Progress::default()));
     ex.spawn(app(w.clone(), en, npre, op, prog.clone()));
@@ -404,6 +520,8 @@ fn items(stream: u64, hist: &str) -> Vec<String> {
                 format!("{}:R{}", stream, c)
             } else if let Some(h) = t.strip_prefix('c') {
                 format!("{}:c:{}", stream, h)
+            } else if let Some(n) = t.strip_prefix('g') {
+                format!("SEG{}", n)
             } else {
                 panic!("driver: bad history item {}", t)
             }
@@ -553,6 +671,10 @@ fn main() {
                         su.ex.run();
                         continue;
                     }
+                    if t.starts_with('g') {
+                        assert!(apply_event(&su.w, &format!("SEG{}", &t[1..])));
+                        continue;
+                    }
                     let (id, rest) = if let Some(r) = t.strip_prefix("a:") {
                         (ida, r)
                     } else if let Some(r) = t.strip_prefix("b:") {
@@ -584,6 +706,128 @@ fn main() {
             let close = g.closed.as_ref().map(|c| c.0.to_string()).unwrap_or_else(|| "-".into());
             let stop = |id: u64| g.streams.get(&id).and_then(|s| s.stopped).map(|c| c.to_string()).unwrap_or_else(|| "-".into());
             format!("ok sess={} A {} stop={} B {} stop={} close={}", p.sess.clone().unwrap(), show(ida), stop(ida), show(idb), stop(idb), close)
+        }
+        ["wt.multi", s, en, mode, hist] => {
+            let s: u64 = s.parse().unwrap();
+            let mode = if *mode == "d" {
+                Mode::Data
+            } else if mode.starts_with('t') {
+                Mode::Tokio(mode[1..].parse().unwrap())
+            } else {
+                Mode::Read(mode[1..].parse().unwrap())
+            };
+            let mut su = match establish(s, 0, *en != "0", Op::Multi { mode }, &[], 0) {
+                Ok(su) => su,
+                Err(e) => return format!("err {}", e),
+            };
+            let mut ids: Vec<u64> = Vec::new();
+            if *hist != "-" {
+                for t in hist.split(',') {
+                    if t == "p" {
+                        su.ex.run();
+                        continue;
+                    }
+                    if t.starts_with('g') {
+                        assert!(apply_event(&su.w, &format!("SEG{}", &t[1..])));
+                        continue;
+                    }
+                    let mut it = t.splitn(2, ':');
+                    let id: u64 = it.next().unwrap().parse().expect("driver: stream id");
+                    let rest = it.next().expect("driver: item");
+                    if !ids.contains(&id) {
+                        ids.push(id);
+                        assert!(apply_event(&su.w, &format!("{}{}", if id & 2 == 0 { "B" } else { "U" }, id)));
+                    }
+                    if rest == "o" {
+                        continue;
+                    }
+                    let e = items(id, rest).pop().unwrap();
+                    assert!(apply_event(&su.w, &e), "bad event {}", e);
+                }
+            }
+            su.ex.run();
+            let p = su.prog.lock().unwrap();
+            if let Some(f) = &p.fail {
+                return format!("err {}", f);
+            }
+            let g = su.w.lock().unwrap();
+            ids.sort();
+            let mut out = format!("ok sess={}", p.sess.clone().unwrap());
+            for id in ids {
+                let mid = match p.multi.get(&id) {
+                    None => "nostream".to_string(),
+                    Some((x, pieces, end)) => {
+                        let data = if pieces.is_empty() {
+                            "-".to_string()
+                        } else {
+                            pieces.iter().map(|b| hex(b)).collect::<Vec<_>>().join(".")
+                        };
+                        format!("{} data={} end={}", x, data, end.clone().unwrap_or_else(|| "pending".into()))
+                    }
+                };
+                let stop = g.streams.get(&id).and_then(|s| s.stopped).map(|c| c.to_string()).unwrap_or_else(|| "-".into());
+                out.push_str(&format!(" #{} {} stop={}", id, mid, stop));
+            }
+            let close = g.closed.as_ref().map(|c| c.0.to_string()).unwrap_or_else(|| "-".into());
+            format!("{} close={}", out, close)
+        }
+        ["wt.open2", s, en, wb, credit, ops] => {
+            let s: u64 = s.parse().unwrap();
+            let wb: u64 = wb.parse().unwrap();
+            let starve = *credit != "0";
+            let ops: Vec<(bool, Vec<u8>)> = ops
+                .split(',')
+                .map(|o| {
+                    let mut it = o.splitn(2, ':');
+                    let k = it.next().unwrap();
+                    (k == "bi", unhex(it.next().unwrap_or("-")))
+                })
+                .collect();
+            let nops = ops.len();
+            // starve: exactly the uni streams the server opens at start-up (control, QPACK encoder, decoder), no bidi credit
+            let credits = if starve { (3, 0) } else { (100, 100) };
+            let mut su = match establish_c(s, 0, *en != "0", Op::OpenMany { ops }, &[], wb, credits) {
+                Ok(su) => su,
+                Err(e) => return format!("err {}", e),
+            };
+            let mut guard = 0;
+            loop {
+                su.ex.run();
+                {
+                    let p = su.prog.lock().unwrap();
+                    if p.opened || p.fail.is_some() {
+                        break;
+                    }
+                }
+                guard += 1;
+                if guard > 10_000 {
+                    break;
+                }
+                if wb > 0 {
+                    let now = su.w.lock().unwrap().local_streams();
+                    for id in now.iter().filter(|i| !su.before.contains(i)) {
+                        su.w.lock().unwrap().grant_write(*id, wb);
+                    }
+                }
+                if starve {
+                    // one more credit of the kind that is missing, one poll later
+                    assert!(apply_event(&su.w, if guard % 2 == 1 { "G1" } else { "H1" }));
+                }
+                if wb == 0 && !starve {
+                    break;
+                }
+            }
+            let p = su.prog.lock().unwrap();
+            if let Some(f) = &p.fail {
+                return format!("err {}", f);
+            }
+            let g = su.w.lock().unwrap();
+            let new: Vec<u64> = g.local_streams().into_iter().filter(|i| !su.before.contains(i)).collect();
+            if !p.opened || new.len() != nops {
+                return format!("ok sess={} tx=pending opened={}/{}", p.sess.clone().unwrap_or_else(|| "?".into()), p.opened_count, nops);
+            }
+            let txs: Vec<String> = new.iter().map(|id| hex(&g.tx_of(*id))).collect();
+            format!("ok sess={} tx={}", p.sess.clone().unwrap(), txs.join(","))
         }
         _ => "driver-error unknown-case".into(),
     });
